@@ -286,6 +286,9 @@ def evs(n, env, events=None):
             return ("P", a[1], a[2] + (b if op == "+" else -b))
         if isinstance(a, tuple) and isinstance(b, tuple) and a and b and a[0] == "P" and b[0] == "P" and a[1] == b[1] and op == "-":
             return a[2] - b[2]                  # distance between two positions of one modelled array
+        if isinstance(a, tuple) and isinstance(b, tuple) and a and b and a[0] == "P" and b[0] == "P" and a[1] == b[1] \
+                and op in ("<", ">", "<=", ">="):
+            return int({"<": a[2] < b[2], ">": a[2] > b[2], "<=": a[2] <= b[2], ">=": a[2] >= b[2]}[op])
         if isinstance(a, tuple) or isinstance(b, tuple):
             if op in ("==", "!="):
                 return int((a == b) == (op == "=="))        # a modelled pointer never equals an integer (NULL)
